@@ -1002,6 +1002,38 @@ for b in ['B13','B14','B15','B16','B17','B18']:
 
 wseed('C11d','C11.R1'); wseed('C12d','C12.R4'); wseed('C12d','C14.R3',prop='C14'); wseed('C13d','C13.R6'); wseed('C14d','C14.R1'); wseed('C15d','C15.R3')
 wseed('C16d','C16.R5'); wseed('C17d','C17.R5'); wseed('C18d','C18.R2'); wseed('C19d','C19.R3'); wseed('C20d','C20.R2')
+
+# wave e seeds and round-4 refactors
+wseed('C01e','C01.R6'); wseed('C02e','C02.R7'); wseed('C03e','C03.R3'); wseed('C04e','C04.R7'); wseed('C05e','C05.R6')
+wseed('C06e','C06.R2'); wseed('C07e','C07.R2'); wseed('C08e','C08.R1'); wseed('C09e','C09.R4'); wseed('C10e','C10.R4')
+for b in ['B19','B20','B21','B22','B23','B24']:
+    for i in range(1,7):
+        wbenign(b,'p%d.diff'%i)
+# mutants in the round-4 shapes (tables of checks, step closures, cmp.Compare, slices.Sort*Func, bound-method callbacks)
+def bp(b,n): return patch_edits(os.path.join(HERE,'..','benign',b,'p%d.diff'%n))
+HBC='x/ophost/types/bridge_config.go'
+w('C05', 'table-driven config guards: zero finalization period accepted (< instead of <=)', 'C05.R2', *bp('B23',1),
+  (HBC, '{config.FinalizationPeriod <= time.Duration(0), "finalization period must be greater than 0"},', '{config.FinalizationPeriod < time.Duration(0), "finalization period must be greater than 0"},'))
+w('C05', 'table-driven config guards: loop stops after the first guard', 'C05.R2', *bp('B23',1),
+  (HBC, '\t\tif guard.violated {\n\t\t\treturn errors.Wrap(sdkerrors.ErrInvalidRequest, guard.reason)\n\t\t}\n', '\t\tif guard.violated {\n\t\t\treturn errors.Wrap(sdkerrors.ErrInvalidRequest, guard.reason)\n\t\t}\n\t\tbreak\n'))
+HOUT='x/ophost/keeper/output.go'
+w('C05', 'cmp.Compare form: final one second late (> 0 instead of >= 0): deletable although final', 'C05.R4', *bp('B19',3),
+  (HOUT, 'return cmp.Compare(blockUnix, finalizedAtUnix) >= 0, nil', 'return cmp.Compare(blockUnix, finalizedAtUnix) > 0, nil'))
+w('C05', 'cmp.Compare form: operands swapped', 'C05.R1', *bp('B19',3),
+  (HOUT, 'return cmp.Compare(blockUnix, finalizedAtUnix) >= 0, nil', 'return cmp.Compare(finalizedAtUnix, blockUnix) >= 0, nil'))
+w('C03', 'step-closure form: the output-root step compares the storage root with itself', 'C03.R1', *bp('B19',2),
+  (HM, '\t\t\tif !bytes.Equal(outputProposal.OutputRoot, outputRoot[:]) {\n\t\t\t\treturn types.ErrFailedToVerifyWithdrawal.Wrap("invalid output root")', '\t\t\tif outputProposal.OutputRoot != nil && !bytes.Equal(outputRoot[:], outputRoot[:]) {\n\t\t\t\treturn types.ErrFailedToVerifyWithdrawal.Wrap("invalid output root")'))
+w('C02', 'step-closure form: the already-claimed step reports nil', 'C02.R1', *bp('B19',2),
+  (HM, '\t\t\tif ok {\n\t\t\t\treturn types.ErrWithdrawalAlreadyFinalized\n\t\t\t}\n\t\t\treturn nil', '\t\t\tif ok {\n\t\t\t\treturn nil\n\t\t\t}\n\t\t\treturn nil'))
+w('C05', 'step-closure form: steps run but the first error is ignored', 'C05.R1', *bp('B19',2),
+  (HM, '\tfor _, step := range steps {\n\t\tif err := step(); err != nil {\n\t\t\treturn nil, err\n\t\t}\n\t}', '\tfor _, step := range steps[1:] {\n\t\tif err := step(); err != nil {\n\t\t\treturn nil, err\n\t\t}\n\t}'))
+w('C18', 'slices.SortStableFunc with a length-only comparator on the removal list', 'C18.R5', *bp('B21',1),
+  (VSC, 'slices.SortStableFunc(noLongerBonded, bytes.Compare)', 'slices.SortStableFunc(noLongerBonded, func(a, b []byte) int { return len(a) - len(b) + 0*bytes.Compare(a, b) })'))
+HGENF='x/ophost/keeper/genesis.go'
+w('C16', 'bound-method exporter: visit asks to stop after the first bridge', 'C16.R2', *bp('B23',3),
+  (HGENF, '\te.bridges = append(e.bridges, bridge)\n\treturn false, nil', '\te.bridges = append(e.bridges, bridge)\n\treturn true, nil'))
+w('C15', 'signatures validated against a constant chain id instead of the stored L1 chain id', 'C15.R2',
+  ('x/opchild/keeper/oracle.go', 'err = l2connect.ValidateVoteExtensions(sdkCtx, k.HostValidatorStore, h-1, hostChainID, extendedCommitInfo)', 'err = l2connect.ValidateVoteExtensions(sdkCtx, k.HostValidatorStore, h-1, "initiation-1", extendedCommitInfo)\n\t_ = hostChainID'))
 #@@MORE@@
 for p,l in W.items():
     json.dump(l, open(os.path.join(HERE,p+'.json'),'w'), indent=1)
